@@ -150,6 +150,13 @@ def negatives(rng, n):
             t = statement(rng, rng.choice(['wireconc', 'gateconc', 'thconc']))
             t[2] = '-' + t[2]
             out.append(('negative-conc', render(t, L) + '\n'))
+        elif k < 0.4:
+            # a gate / threshold is named by one wire and one node, in either order: two nodes or two wires is a wrong kind of argument
+            t = statement(rng, rng.choice(['gateconc', 'thconc']))
+            inner = t[1][1]
+            i = rng.randrange(2)
+            inner[i] = wire(rng) if not isinstance(inner[i], list) else num(rng)
+            out.append(('gate-argument-kind:' + t[1][0], render(t, L) + '\n'))
         else:
             kind = rng.choice(['seesaw', 'reporter', 'inputfanout', 'seesawOR', 'seesawAND'])
             t = statement(rng, kind)
